@@ -1,0 +1,56 @@
+//go:build verif
+// +build verif
+
+// Package verifx re-exports the libp2p-internal blocklist and handshake
+// packages for external verification harnesses. It deliberately does not
+// import the libp2p package itself.
+package verifx
+
+import (
+	"time"
+
+	"github.com/gauss-project/aurorafs/pkg/aurora"
+	"github.com/gauss-project/aurorafs/pkg/boson"
+	"github.com/gauss-project/aurorafs/pkg/crypto"
+	"github.com/gauss-project/aurorafs/pkg/logging"
+	"github.com/gauss-project/aurorafs/pkg/p2p/libp2p/internal/blocklist"
+	"github.com/gauss-project/aurorafs/pkg/p2p/libp2p/internal/handshake"
+	hpb "github.com/gauss-project/aurorafs/pkg/p2p/libp2p/internal/handshake/pb"
+	"github.com/gauss-project/aurorafs/pkg/storage"
+	"github.com/gauss-project/aurorafs/pkg/topology/lightnode"
+	libp2ppeer "github.com/libp2p/go-libp2p-core/peer"
+)
+
+type (
+	HandshakeSyn                = hpb.Syn
+	HandshakeAck                = hpb.Ack
+	HandshakeSynAck             = hpb.SynAck
+	HandshakeBzzAddress         = hpb.BzzAddress
+	Blocklist                   = blocklist.Blocklist
+	HandshakeService            = handshake.Service
+	AdvertisableAddressResolver = handshake.AdvertisableAddressResolver
+)
+
+var (
+	ErrNetworkIDIncompatible = handshake.ErrNetworkIDIncompatible
+	ErrInvalidAck            = handshake.ErrInvalidAck
+	ErrInvalidSyn            = handshake.ErrInvalidSyn
+	ErrWelcomeMessageLength  = handshake.ErrWelcomeMessageLength
+	ErrPicker                = handshake.ErrPicker
+)
+
+const (
+	HandshakeProtocolName    = handshake.ProtocolName
+	HandshakeProtocolVersion = handshake.ProtocolVersion
+	HandshakeStreamName      = handshake.StreamName
+)
+
+func NewBlocklist(store storage.StateStorer) *Blocklist { return blocklist.NewBlocklist(store) }
+
+func SetBlocklistTimeNow(f func() time.Time) func() time.Time { return blocklist.VerifSetTimeNow(f) }
+
+func NewHandshake(signer crypto.Signer, advertisableAddresser AdvertisableAddressResolver, overlay boson.Address,
+	networkID uint64, nodeMode aurora.Model, welcomeMessage string, ownPeerID libp2ppeer.ID, logger logging.Logger,
+	lightNodes *lightnode.Container, lightLimit int) (*HandshakeService, error) {
+	return handshake.New(signer, advertisableAddresser, overlay, networkID, nodeMode, welcomeMessage, ownPeerID, logger, lightNodes, lightLimit)
+}
